@@ -583,6 +583,7 @@ static void stage_porta(Case &c)
     int c2 = note_on(c, r, ch, dst, 100, &g, J.fam, "melodic");
     if(c2 < 0) { c.inconclusive = true; return; }
     double p_src = src + note_off + bendp, p_dst = dst + note_off + bendp;
+    const bool zero_tick = rng.chance(0.5);
     // start point: the second note's first frequency write denotes the source key's pitch
     {
         double ideal = ideal_fnum(p_src, g.block(), r.clock), err = fabs((double)g.fnum() - ideal);
@@ -595,6 +596,9 @@ static void stage_porta(Case &c)
     bool up = dst > src;
     uint64_t prev = (uint64_t)g.fnum() << g.block();
     unsigned last_block = g.block(), last_fnum = g.fnum();
+    // a tick of zero seconds (a player polling, or the first audio call of a song that starts with this chord) runs the glide
+    // iterators with dt = 0 while one note glides and the other does not
+    if(zero_tick) { r.begin(); double nd = 0; API("opn2_tickEvents", nd = opn2_tickEvents(r.dev, 0.0, 1.0 / rate)); (void)nd; r.end(); count("porta_zero_second_ticks"); }
     std::vector<short> buf(4096);
     static const int chunks[] = {32, 80, 200, 512, 1000};
     int chunk = rng.pick(chunks);
@@ -627,6 +631,25 @@ static void stage_porta(Case &c)
         {
             c.violation(vfmt("oracle:C10:portamento-left-target:%s", J.fam), vfmt("%s after reaching the target the pitch moved to block=%u fnum=%u", ctx.c_str(), last_block, last_fnum));
             break;
+        }
+    }
+    if(legato && reached_at >= 0 && g_w.violations_in_case == 0 && c1 != c2)
+    {   // both keys are still down: a pitch bend re-pitches both at once (the first note never glided, the second has arrived)
+        int b2 = (bend14 + 2731) % 16384; double bp2 = ((double)b2 - 8192.0) / 8192.0 * 2.0;
+        if(nominal_hz(std::max(src, dst) + note_off + bp2 + 0.5) < NATIVE_LIMIT_HZ)
+        {
+            r.begin(); API("opn2_rt_pitchBend", opn2_rt_pitchBend(r.dev, (uint8_t)ch, (uint16_t)b2)); r.end();
+            bool got1 = false, got2 = false;
+            for(size_t i = 0; i < r.groups.size(); i++)
+            {
+                const Group &q = r.groups[i];
+                if(q.ch == c1) { got1 = true; J.tune(q, src + note_off + bp2, dtmul, ctx + vfmt(" bend=%d after the glide, first (non-gliding) note", b2), false); }
+                if(q.ch == c2) { got2 = true; J.tune(q, dst + note_off + bp2, dtmul, ctx + vfmt(" bend=%d after the glide, second note", b2), false); }
+            }
+            if(!got1 || !got2)
+                c.violation(vfmt("oracle:C10:bend-did-not-repitch-key-down-note:after-portamento%s", zero_tick ? ":zero-tick" : ""),
+                            vfmt("%s bend %d after the glide: %s got no frequency write inside the call", ctx.c_str(), b2, !got1 ? "the first (non-gliding) note" : "the second note"));
+            count("porta_bends_after_glide");
         }
     }
     if(reached_at < 0 && g_w.violations_in_case == 0)
